@@ -29,7 +29,7 @@ RULE = ("random system bounds/exclusion zone x 1-6 proposals (priorities with ti
         "distinct = canonical case JSON; non-trivial = >=2 proposals and >=2 distinct histories executed")
 REQUIRED_BUCKETS = ["conflicting-set", "conflict-free-set", "zone-straddling-bounds", "all-None-proposals",
                     "ties", "expiry-drops-some", "stale-replaced", "zone-present", "target-on-zone-edge",
-                    "two-groups-share-actors", "max-age:60s", "max-age:other"]
+                    "two-groups-share-actors", "max-age:60s", "max-age:other", "tiny-nonzero-preference"]
 REQUIRED_COUNTERS = ["targets_observed", "histories_run", "expiry_checks"]
 ASSUMPTIONS = ["history-freeness is checked for the final live set of each history (latest proposal per actor)"]
 
@@ -47,6 +47,10 @@ def gen(rng: Any, tier: str, i: int) -> Any:
     if rng.random() < 0.08:
         for p in props:
             p["pref"] = p["lo"] = p["hi"] = None
+    if rng.random() < 0.15:
+        # a preferred power that is not zero but tiny (left-overs of float arithmetic such as 1500.3-1200.1-300.2):
+        # only exactly 0 W is exempt from the exclusion zone
+        rng.choice(props)["pref"] = rng.choice([5e-10, -5e-10, 1e-12, 5.684341886080802e-14, 5e-324, -1e-9])
     # creation times for the expiry sub-check: the maximum proposal age is 60 s (what the actor uses) or another
     # value (fractional seconds, below one second, a day and more); all times are exact binary multiples of age/60
     age = rng.choice([60.0, 60.0, 7.5, 0.46875, 86400.0, 129600.0])
@@ -109,6 +113,8 @@ def check(case: dict[str, Any], rec: Any) -> None:
     rec.bucket("conflict-free-set" if ref is not None else "conflicting-set")
     if all(p["pref"] is None and p["lo"] is None and p["hi"] is None for p in props):
         rec.bucket("all-None-proposals")
+    if any(p["pref"] is not None and 0 < abs(p["pref"]) < 1e-6 for p in props):
+        rec.bucket("tiny-nonzero-preference")
     if len({p["prio"] for p in props}) < n:
         rec.bucket("ties")
     if zone and any((p["lo"] is not None and p["hi"] is not None and p["lo"] <= el and p["hi"] >= eu and
@@ -132,8 +138,10 @@ def check(case: dict[str, Any], rec: Any) -> None:
         w = {"target": t, "order": order, "sys": sys, "excl": excl}
         if not (sl - 1e-6 <= t <= su + 1e-6):
             rec.violation("target-outside-system-inclusion", w)
-        if abs(t) > 1e-9 and el + 1e-6 < t < eu - 1e-6:
+        if t != 0.0 and el + 1e-6 < t < eu - 1e-6:
             rec.violation("target-inside-exclusion-zone", w)
+        if t != 0.0 and abs(t) < 1e-6 and zone:
+            rec.bucket("tiny-nonzero-target-outside-zone")
         if zone and (abs(t - el) < 1e-9 or abs(t - eu) < 1e-9) and abs(t) > 1e-9:
             rec.bucket("target-on-zone-edge")
     if len(results) > 1:
